@@ -82,6 +82,10 @@ func ReadPacket(r io.Reader) (pkt pkts.Packet, err error) {
 	if err := h.Unpack(rawPacket); err != nil {
 		return nil, err
 	}
+	// The packet is decoded from the datagram as received. Its header must
+	// say the same, whatever length the datagram announced: packets with
+	// a fixed length are packed with the length stored in the header.
+	h.SetVarPartLength(uint16(len(rawPacket)) - pkts.EncodedHeaderLength(rawPacket))
 	pkt, err = NewPacketWithHeader(h)
 	if err != nil {
 		return nil, err
